@@ -69,7 +69,8 @@ def value_item(rng, pm, kinds='sif'):
     tag = rng.choice(['f', 'lf']) if pm else 'f'
     return f'{tag}={rdouble_bits(rng)}'
 
-def sep_item(rng, safe=True):
+def sep_item(rng, safe=True, pm=False):
+    if pm and rng.random() < 0.12: return 'pc'          # a literal percent, written and read with `%%`
     if safe or rng.random() < 0.5:
         s = rng.choice(SAFE_SEPS)
     else:
@@ -81,17 +82,19 @@ def sequence(rng, contract=True, maxlen=10, kinds='sif'):
     src = rng.choice('SF'); pm = rng.random() < 0.5
     n = rng.randrange(1, maxlen + 1)
     items = []
-    if rng.random() < 0.2: items.append(sep_item(rng, True))
+    if rng.random() < 0.2: items.append(sep_item(rng, True, pm))
     for j in range(n):
         it = value_item(rng, pm, kinds)
         items.append(it)
         last = j == n - 1
         numeric = not it.startswith('s=')
         if contract:
-            if not last and (numeric or rng.random() < 0.8): items.append(sep_item(rng, True))
+            if not last and (numeric or rng.random() < 0.8):
+                items.append(sep_item(rng, True, pm))
+                if pm and items[-1] != 'pc' and rng.random() < 0.1: items.append('pc')
             elif not last and not numeric and rng.random() < 0.5: pass   # a String may be followed by anything directly
         else:
-            if rng.random() < 0.6: items.append(sep_item(rng, False))
+            if rng.random() < 0.6: items.append(sep_item(rng, False, pm))
     if rng.random() < 0.4:
         if contract:
             z = rng.choice([b',', b' ', b'"', b'\\', b'xyz', b';1', b'\n5', b'-', b'+1'])
@@ -104,6 +107,7 @@ def sequence(rng, contract=True, maxlen=10, kinds='sif'):
         # position the reader can reach inside the String (reading beyond the NUL is undefined, not a round-trip question)
         bound = 2
         for it in items:
+            if it == 'pc': bound += 2; continue
             k, v = it.split('=', 1)
             bound += {'s': len(v) + 2, 't': len(v) // 2, 'z': 0}.get(k, 330 if k in ('f', 'lf') else 21)
         z = bytes.fromhex(items.pop().split('=', 1)[1]) if items[-1].startswith('z=') else b''
@@ -168,6 +172,7 @@ def look_op(rng):
 class C15(Spec):
     id = 'C15'; engine = 'text'; harness = 'h_text'; driver = 'drv_text'
     generators = ('Text',)
+    harness_timeout = 600
     technique = ('Lean 4 proof by induction over byte strings, decimal digit lists and item sequences about a model of String_Show/String_Look, '
                  '"%li" printing/scanning and the position accounting of scan_from_with; escape tables, delimiters and the reader\'s control-flow flag '
                  'regenerated from the source each run; differential check against the real library (String and File sinks) with a direct C oracle')
@@ -185,7 +190,7 @@ class C15(Spec):
                   'executable model of both conversions is compared with the implementation on every run and the direct oracle checks '
                   '|read - written| <= 0.5e-6 + half an ulp and that the shown text is stable. Trusted: Lean kernel; the model of scanf "%li"/"%ld"/"%lf"/"%c"/'
                   'literal matching and of printf "%li"/"%f"/"%c" (validated against glibc by the correspondence runs, not proved); translate/g_text.py; '
-                  'harness/driver comparison (testing). Outside: "%%" inside a scanned sequence (known finding KF-C15-pct-advance), non-"l" integer '
+                  'harness/driver comparison (testing). Outside: non-"l" integer '
                   'specifications into a long (F21), non-finite doubles, reading at a position beyond the end of a String.')
     rule = ('op files of round trips (R: values and separators written at a start position of a String / File sink by show_to or by one print_to_with, '
             'then read back by look_from / one scan_from_with) and of reads of arbitrary text (K). Generators: every byte value 1..255 alone and in one string, '
@@ -201,13 +206,13 @@ class C15(Spec):
     assumptions = ('Strings are NUL-free C strings; Ints are int64; Floats are finite doubles',
                    'text following a written integer does not start with a digit (nor with x/X after a lone 0 read with %li); text following a written Float does not start with a digit or e/E',
                    'a separator read from a File that ends in white space is not followed by white space (scanf would swallow it)',
-                   'separators contain no % (known finding KF-C15-pct-advance) and no NUL; start position <= length of the String read from',
+                   'separators are NUL-free text without %, or a literal percent written and read as %% (fixed by 619a9b3); start position <= length of the String read from',
                    'numeric specifications carry the l modifier (F21: scanning %i/%d into a long is outside the property)',
                    'LC_ALL=C; x86-64 glibc (long = int64_t, char signed)')
     def cases(self, rng, tier, boost=1):
         quick = tier == 'quick'
         cs = []
-        def chunk(name, lines, n=2500):
+        def chunk(name, lines, n=2000):
             for i in range(0, len(lines), n): cs.append(Case(f'{name}{i // n}', lines[i:i + n]))
         # (a) every byte value, alone and with every kind of neighbour; the full-range string
         lines = []
@@ -305,6 +310,14 @@ class C15(Spec):
             x = a[i] if i < len(a) else '<missing>'
             y = b[i] if i < len(b) else '<missing>'
             if x != y and 'unmodelled' not in y: return i, x, y
+        # the harness's own judgement "inside the property's quantifier" (which switches its oracle on) must be the theorems' hypothesis
+        cc = [l.split('contract=')[1][:1] for l in c_out.split('\n') if l.startswith('C contract=')]
+        mc = [l.split('contract=')[1][:1] for l in m_out.split('\n') if l.startswith('M ') and 'contract=' in l]
+        if len(cc) == len(mc):
+            for j, (x, y) in enumerate(zip(cc, mc)):
+                if x != y:
+                    rops = [l for l in case.lines if l.startswith('R ')]
+                    return (-3, f'harness contract={x}', f'model contractOK={y} on `{rops[j][:300] if j < len(rops) else "?"}`')
         # the model must round-trip every op that is inside the contract (this is what the theorems state)
         cex = self.model_selfcheck(case, m_out)
         if cex: return (-2, '<n/a>', cex)
